@@ -38,7 +38,10 @@ def build_case(ck, case):
             v, e, c = impl.quiet(sk.create_lattice)
             v, e, c, _ = impl.quiet(ve.generate_mesh, v, e, c, ne=case.get("ne", 6))
         return (v, e, c), None, None
-    topo = gen.voronoi_topo(rng, case["sites"], case["kind"])
+    if case["kind"] in ("square", "brick"):
+        topo = gen.lattice_topo(case["kind"], case.get("nx", 3), case.get("ny", 3))
+    else:
+        topo = gen.voronoi_topo(rng, case["sites"], case["kind"])
     if topo is None or topo.ncells() < 1:
         return None
     if "mask" in case:
@@ -124,7 +127,10 @@ def oracle(ck, dicts, frame, obs, case):
         sep = seg_cells.get(frozenset(p[:2]), set())
         oc = obs["beOwnCells"][i]
         if len(oc) != 2 or set(oc) != sep or len(sep) != 2:
-            ck.fail("internal interfaces separate exactly two cells", f"interface {i} own_cells {oc} cells along it {sorted(sep)}", case)
+            # finding D27: the classification looks at vertices only; a two-point interface on the rim of a hole / concave border
+            # whose two ends are junctions of >= 3 cells (possible only with four-fold junctions) is counted as internal
+            sig = "two-point-rim-interface-between-multi-cell-junctions" if (len(p) == 2 and len(sep) == 1) else None
+            ck.fail("internal interfaces separate exactly two cells", f"interface {i} own_cells {oc} cells along it {sorted(sep)}", case, signature=sig)
             break
     # (5) lookup by cells for interfaces with an interior point
     shared = {}
@@ -196,13 +202,20 @@ def run(ck):
         for s in range(small):
             seed = int(ck.rng.integers(1 << 30))
             rng = np.random.default_rng(seed)
-            topo = gen.voronoi_topo(rng, 14 if ck.tier == "quick" else 18, "random")
+            topo = gen.voronoi_topo(rng, 14 if ck.tier == "quick" else 22, "random")
             if topo is None:
                 continue
-            nc = min(topo.ncells(), 7 if ck.tier == "quick" else 10)
+            nc = min(topo.ncells(), 7 if ck.tier == "quick" else 11)
             for mask in range(1, 1 << nc):
-                cases.append({"type": "voronoi", "seed": seed, "sites": 14 if ck.tier == "quick" else 18, "kind": "random",
+                cases.append({"type": "voronoi", "seed": seed, "sites": 14 if ck.tier == "quick" else 22, "kind": "random",
                               "mask": mask, "kmax": 3, "relabel": 0, "p_rev": 0.3})
+        # lattices with four-fold junctions and T-junctions (what the tessellation parser yields on grid-aligned centres)
+        for i in range(6 if ck.tier == "quick" else 40):
+            cases.append({"type": "voronoi", "seed": int(ck.rng.integers(1 << 30)), "sites": 0, "kind": ["square", "brick"][i % 2],
+                          "nx": int(ck.rng.integers(2, 5)), "ny": int(ck.rng.integers(2, 5)), "subset": [None, 0.7, 0.5][i % 3],
+                          "kmax": [0, 0, 2][i % 3], "relabel": i % 2, "p_rev": 0.3})
+        # square lattice with a hole: two-point interfaces on the hole's rim join junctions of three cells (finding D27)
+        cases.append({"type": "voronoi", "seed": 5, "sites": 0, "kind": "square", "nx": 3, "ny": 3, "mask": 0b111101111, "kmax": 0, "relabel": 0, "p_rev": 0.0})
         fixtures = ["tests/data/initial_furrow.dmp", "tests/data/last_furrow.dmp", "tests/data/furrow_gauss_velocity/stage3.dmp"]
         for f in fixtures:
             cases.append({"type": "fixture", "seed": 0, "path": f})
